@@ -18,6 +18,7 @@ import (
 	"reflect"
 	"strings"
 	"sync"
+	"unsafe"
 
 	"github.com/modern-go/reflect2"
 )
@@ -31,6 +32,32 @@ type FieldAccessor struct {
 	Field  reflect2.StructField
 	Encode EncodeHandler
 	Decode DecodeHandler
+}
+
+// embeddedField is a field of an embedded struct seen from the outer struct.
+type embeddedField struct {
+	reflect2.StructField
+	base uintptr
+}
+
+func (f embeddedField) Offset() uintptr {
+	return f.base + f.StructField.Offset()
+}
+
+func (f embeddedField) UnsafeGet(obj unsafe.Pointer) unsafe.Pointer {
+	return f.StructField.UnsafeGet(unsafe.Pointer(uintptr(obj) + f.base))
+}
+
+func (f embeddedField) UnsafeSet(obj unsafe.Pointer, value unsafe.Pointer) {
+	f.StructField.UnsafeSet(unsafe.Pointer(uintptr(obj)+f.base), value)
+}
+
+func (f embeddedField) Get(obj interface{}) interface{} {
+	return f.Type().PackEFace(f.UnsafeGet(reflect2.PtrOf(obj)))
+}
+
+func (f embeddedField) Set(obj interface{}, value interface{}) {
+	f.UnsafeSet(reflect2.PtrOf(obj), reflect2.PtrOf(value))
 }
 
 func stripOptions(tag string) string {
@@ -74,7 +101,15 @@ func _getFields(t reflect2.StructType, tags []string, mapping map[string]struct{
 			continue
 		case reflect.Struct:
 			if f.Anonymous() {
+				// the fields of an embedded struct are addressed relative to the outer
+				// struct: shift them by the offset of the embedded struct.
+				n := len(fields)
 				fields = _getFields(ft.(reflect2.StructType), tags, mapping, fields)
+				if offset := f.Offset(); offset != 0 {
+					for j := n; j < len(fields); j++ {
+						fields[j].Field = embeddedField{fields[j].Field, offset}
+					}
+				}
 				continue
 			}
 		}
